@@ -64,11 +64,12 @@ func (l Labels) List() []string {
 
 // identifier pools (exclude Go keywords, predeclared names, and the fixture catalog)
 var (
-	pkgNames   = []string{"app", "di", "wiring", "gen_1", "Pkg2"}
-	typeNames  = []string{"Gontainer", "Box", "container_t", "C9", "AppContainer"}
-	ctorNames  = []string{"NewGontainer", "New", "Build", "make_it", "NewBox2"}
-	getterPool = []string{"GetA", "GetB", "GetC", "Db", "Logger_1", "X", "getLower", "Get9", "GetInContextual", "MusT", "Roots", "GetMust"}
-	yamlNames  = []string{"a", "b1", "svc", "my.svc", "my-svc", "my_svc", "A", "x.y-z_0", "db", "log", "q9", "S.T", "long-name-with.many_parts9"}
+	// (one name of each kind is longer than the 60 columns of the step table)
+	pkgNames   = []string{"app", "di", "wiring", "gen_1", "Pkg2", "a_package_name_that_is_far_longer_than_the_sixty_columns_of_the_step_table"}
+	typeNames  = []string{"Gontainer", "Box", "container_t", "C9", "AppContainer", "AContainerTypeNameThatIsFarLongerThanTheSixtyColumnsOfTheStepTable01"}
+	ctorNames  = []string{"NewGontainer", "New", "Build", "make_it", "NewBox2", "NewContainerWithANameThatIsFarLongerThanTheSixtyColumnsOfTheStepTable"}
+	getterPool = []string{"GetA", "GetB", "GetC", "Db", "Logger_1", "X", "getLower", "Get9", "GetInContextual", "MusT", "Roots", "GetMust", "GetSomethingWithANameThatIsFarLongerThanTheSixtyColumnsOfTheStepTable"}
+	yamlNames  = []string{"a", "b1", "svc", "my.svc", "my-svc", "my_svc", "A", "x.y-z_0", "db", "log", "q9", "S.T", "long-name-with.many_parts9", "a-service-or-parameter-name.that_is_far_longer_than_the_sixty_columns.of-the-step-table"}
 	tagNames   = []string{"t", "tag1", "http.handler", "my-tag", "T_2", "x"}
 	fnNames    = []string{"echo", "count", "fail", "two", "Fn_9", "e"}
 	envNames   = []string{"VERIF_SET", "VERIF_UNSET", "VERIF_NUM", "VERIF_NAN"}
@@ -345,12 +346,20 @@ func (g *G) genMeta() {
 // literals and patterns
 
 // boundaryTexts look like the special argument forms but are plain strings by the documented rules.
+// formatterTexts: string contents that a source-level post-processing of the generated file (blank-line squeezing,
+// comment handling, raw-string emission) could damage.
+var formatterTexts = []string{"a\n\n\tb", "x\n\n\n\ty\n", "\n\n\t", "all: build\n\n\tgo build ./...\n", "}\n\n\tfunc f() {", "*/ x /*", "// c\n\n\t// d", "`a`\n\n\tb", "\r\n\r\n\tz", "\t\n\n \n\t"}
+
 var boundaryTexts = []string{"!value", "!tagged", "!valu", "!valueX", "!taggedx y", "!", "$gontaine", "$gontainerX", " $gontainer", " @a", "!Value x", "! value x", "x@a", "x!tagged t"}
 
 func (g *G) genText(label string) string {
 	if g.chance(6, label+"-boundary") {
 		g.L.Add("text:special-form-boundary")
 		return pickStr(g, boundaryTexts, label+"-bt")
+	}
+	if g.O.Unicode && g.chance(5, label+"-fmt") {
+		g.L.Add("text:formatter-sensitive")
+		return pickStr(g, formatterTexts, label+"-ft")
 	}
 	if g.O.Unicode && g.chance(30, label+"-uni") {
 		g.L.Add("text:unicode")
